@@ -319,6 +319,66 @@ theorem tls13_key_lengths (h : HashSuite) (hl : h.Lawful) (secret : Bytes) (n : 
       have : 255 * 1 ≤ 255 * h.outLen := Nat.mul_le_mul_left _ this
       omega)
 
+open TLX.Props.C01 in
+theorem keyMatOk13 (sp : SuiteSpec) (hwf : specWf sp = true) (cls : CipherClass) (hcls : cls13 sp = some cls)
+    (k iv : Bytes) (hk : k.length = sp.keyLen) (hiv : iv.length = 12) : KeyMatOk cls k iv := by
+  obtain ⟨b, kl, hs, tg⟩ := sp
+  cases b <;> simp [cls13] at hcls <;> subst hcls <;>
+    simp only [specWf, Bool.and_eq_true, Bool.or_eq_true, beq_iff_eq] at hwf <;>
+    simp only [KeyMatOk, hk, hiv]
+  · obtain ⟨h1 | h1, h2⟩ := hwf <;> subst h1 <;> subst h2 <;> decide
+  · obtain ⟨h1 | h1, h2 | h2⟩ := hwf <;> subst h1 <;> subst h2 <;> decide
+  · obtain ⟨h1, h2⟩ := hwf; subst h1; decide
+
+open TLX.Props.C01 in
+theorem keyMatOk12 (pv : ProtocolVersion) (etm : Bool) (sp : SuiteSpec) (hwf : specWf sp = true) (cls : CipherClass)
+    (hcls : cls12 pv etm sp = some cls) (k iv : Bytes) (hk : k.length = sp.keyLen)
+    (hiv : 0 < recordIvLength pv sp.bulk → iv.length = recordIvLength pv sp.bulk) : KeyMatOk cls k iv := by
+  obtain ⟨b, kl, hs, tg⟩ := sp
+  cases b <;> cases pv <;> simp [cls12, cbcAlg] at hcls <;> subst hcls <;>
+    simp only [specWf, Bool.and_eq_true, Bool.or_eq_true, beq_iff_eq] at hwf <;>
+    (try simp only [recordIvLength, Bulk.blockLength, Nat.reduceLT, Nat.lt_irrefl, false_implies, true_implies,
+      forall_const] at hiv) <;>
+    (first | simp only [KeyMatOk, hk, hiv] | simp only [KeyMatOk, hk]) <;>
+    first
+      | (subst hwf; decide)
+      | (rcases hwf with h1 | h1 <;> subst h1 <;> decide)
+      | (obtain ⟨h1 | h1, h2⟩ := hwf <;> subst h1 <;> subst h2 <;> decide)
+      | (obtain ⟨h1 | h1, h2 | h2⟩ := hwf <;> subst h1 <;> subst h2 <;> decide)
+      | (obtain ⟨h1, h2⟩ := hwf; subst h1; decide)
+
+theorem keyLen_le (sp : SuiteSpec) (hwf : specWf sp = true) : sp.keyLen ≤ 32 := by
+  obtain ⟨b, kl, hs, tg⟩ := sp
+  cases b <;> simp only [specWf, Bool.and_eq_true, Bool.or_eq_true, beq_iff_eq] at hwf <;> (try cases hwf) <;>
+    simp only <;> omega
+
+theorem ivFree_of_cls12 (pv : ProtocolVersion) (etm : Bool) (sp : SuiteSpec) (cls : CipherClass)
+    (hcls : cls12 pv etm sp = some cls) (h0 : ¬ 0 < recordIvLength pv sp.bulk) : IvFree cls := by
+  obtain ⟨b, kl, hs, tg⟩ := sp
+  cases b <;> cases pv <;> simp [cls12, cbcAlg] at hcls <;> subst hcls <;>
+    first | trivial | (exfalso; exact h0 (by simp [recordIvLength, Bulk.blockLength]))
+
+theorem suiteBulk_argsOf (sp : SuiteSpec) : Props.C15.suiteBulk (argsOf sp).ks = some sp.bulk := by
+  obtain ⟨b, kl, hs, tg⟩ := sp
+  cases b <;> rfl
+
+theorem rfcParams_argsOf (H : Crypto.Prims) (pv : ProtocolVersion) (sp : SuiteSpec) :
+    Props.C15.rfcParams H pv (argsOf sp).ks sp.bulk = secParams H pv sp := by
+  obtain ⟨b, kl, hs, tg⟩ := sp
+  cases hs <;> rfl
+
+theorem prfHash_lawful (H : Crypto.Prims) (hH : H.Lawful) (b : Bool) : (tls12PrfHash H b).Lawful := by
+  cases b
+  · exact hH.sha256
+  · exact hH.sha384
+
+theorem hash_lawful (H : Crypto.Prims) (hH : H.Lawful) (h : HashName) : (h.suite H).Lawful := by
+  cases h
+  · exact hH.md5
+  · exact hH.sha1
+  · exact hH.sha256
+  · exact hH.sha384
+
 /-! ### F. encrypt-then-MAC -/
 
 theorem etm_extGet (es : List Spec.TlsHello.Ext) (hwf : ∀ e ∈ es, e.ty < 65536) :
